@@ -145,6 +145,8 @@ type FnCtx struct {
 	curPos   token.Pos
 	uid      string
 	inst     *clause // instance hypothesis (slots ... assume)
+	qDepth   int
+	qFacts   [][]Term
 }
 
 type retSite struct {
@@ -202,12 +204,17 @@ func (c *FnCtx) assume(t Term) {
 	if t == "true" || t == "" {
 		return
 	}
+	if c.qDepth > 0 {
+		// side facts produced while evaluating under a binder stay under it
+		c.qFacts[len(c.qFacts)-1] = append(c.qFacts[len(c.qFacts)-1], t)
+		return
+	}
 	c.asserts = append(c.asserts, t)
 }
 
 // define introduces a named constant equal to t (keeps terms small).
 func (c *FnCtx) define(prefix, srt string, t Term) Term {
-	if len(t) < 40 {
+	if len(t) < 40 || c.qDepth > 0 {
 		return t
 	}
 	n := c.fresh(prefix, srt)
@@ -430,18 +437,23 @@ func (c *FnCtx) typeAssume(st *State, v *Val) {
 		}
 	case *types.Slice:
 		c.assume(and(app("<=", "0", app("s_len", v.S)), app("<=", app("s_len", v.S), app("s_cap", v.S)), app("<=", "0", app("s_off", v.S)),
+			app("<=", app("+", app("s_off", v.S), app("s_cap", v.S)), "4611686018427387904"),
 			app("<=", "0", app("s_arr", v.S)),
 			implies(eq(app("s_arr", v.S), "0"), eq(app("s_cap", v.S), "0"))))
 	case *types.Interface:
 		c.assume(implies(eq(app("itag", v.S), "0"), eq(app("ival", v.S), "0")))
 		c.assume(app("<=", "0", app("itag", v.S)))
 		if n, ok := T.(*types.Named); ok && closedIfaces[structKey(n)] {
-			var ds []Term
-			ds = append(ds, eq(app("itag", v.S), "0"))
-			for _, w := range c.u.world(n) {
-				ds = append(ds, eq(app("itag", v.S), intLit(int64(c.u.tagOf(w)))))
+			wf := "inworld." + sym(structKey(n))
+			if !c.declared[wf] {
+				var ds []Term
+				ds = append(ds, eq("t", "0"))
+				for _, w := range c.u.world(n) {
+					ds = append(ds, eq("t", intLit(int64(c.u.tagOf(w)))))
+				}
+				c.declare(wf, fmt.Sprintf("(define-fun %s ((t Int)) Bool %s)", wf, or(ds...)))
 			}
-			c.assume(or(ds...))
+			c.assume(app(wf, app("itag", v.S)))
 			c.trusted["closed world: dynamic types of "+structKey(n)+" are the implementers declared in its package"] = true
 		}
 	case *types.Pointer, *types.Map, *types.Chan, *types.Signature:
